@@ -306,6 +306,26 @@ func observedFeatures(r *runRes) string {
 	return fmt.Sprintf("%d:%s", len(r.resp.File), strings.Join(names, ","))
 }
 
+// the fast feature leaves no trace in a file without messages: such requests are compared on the number of files only
+func hasMsgFlag(r *genReq) string {
+	for _, name := range requestedProto3(r) {
+		for _, f := range r.files {
+			if f.GetName() == name && len(f.MessageType) == 0 {
+				return "nomsg"
+			}
+		}
+	}
+	return "msg"
+}
+func featObs(obs string, r *genReq) string {
+	if hasMsgFlag(r) == "nomsg" {
+		if i := strings.Index(obs, ":"); i >= 0 {
+			return obs[:i+1]
+		}
+	}
+	return obs
+}
+
 func replaceFeatures(param, feats string) string {
 	var parts []string
 	for _, p := range strings.Split(param, ",") {
@@ -495,7 +515,7 @@ func (g *genCtx) paramVariants(reqs []*genReq, states []*c12State) {
 		r, st, res := reqs[j.i], states[j.i], results[k]
 		obs := observedFeatures(res)
 		n3 := r.proto3Requested(r.generate)
-		o.kase("GENFEAT", []string{"[" + j.feats + "]", fmt.Sprint(n3)}, obs)
+		o.kase("GENFEAT", []string{"[" + j.feats + "]", fmt.Sprint(n3), hasMsgFlag(r)}, featObs(obs, r))
 		o.count("feat/" + obs)
 		o.nontrivial("feat/" + j.feats + "/" + obs)
 		if bad, why := res.crashed(); bad {
